@@ -102,6 +102,46 @@ fn check_tok(c: &Case, rng: &mut Rng, st: &mut Stats, all_two_splits: bool) {
     }
 }
 
+/// An embedder switches the tokenizer to PLAINTEXT between two feeds (Tokenizer::set_plaintext_state,
+/// public API). Whatever state the switch interrupts, every line break of the input is read in some
+/// state, so the EOF token must still carry 1 + the line breaks of the whole input, and lines never
+/// go backwards.
+fn check_plaintext_switch(input: &str, cut: usize, st: &mut Stats) {
+    let chars: Vec<char> = input.chars().collect();
+    let cut = cut.min(chars.len());
+    let first: String = chars[..cut].iter().collect();
+    let second: String = chars[cut..].iter().collect();
+    let r = catch(|| {
+        let sink = crate::tokrec::RecSink::new(Policy::TreeBuilderLike);
+        let tok = Tokenizer::new(sink, Default::default());
+        let q = BufferQueue::default();
+        for (k, part) in [&first, &second].iter().enumerate() {
+            if k == 1 {
+                tok.set_plaintext_state();
+            }
+            if !part.is_empty() {
+                q.push_back(StrTendril::from_slice(part));
+            }
+            while !matches!(tok.feed(&q), TokenizerResult::Done) {}
+        }
+        tok.end();
+        let toks = std::mem::take(&mut *tok.sink.toks.borrow_mut());
+        toks
+    });
+    let Ok(toks) = r else { return };
+    st.count("plaintext_switch_runs");
+    let breaks = count_breaks(input.strip_prefix('\u{feff}').unwrap_or(input));
+    let eof = toks.iter().rev().find(|t| matches!(t.0, RTok::Eof)).map(|t| t.1);
+    let backwards = toks.windows(2).position(|w| w[1].1 < w[0].1);
+    if eof != Some(1 + breaks) || backwards.is_some() {
+        st.violation(
+            "line:plaintext-switch",
+            &format!("input={} fed as {:?} | set_plaintext_state() | {:?}: EOF reported on line {:?}, the input has {} line breaks{}", show(input), show(&first), show(&second), eof, breaks, if backwards.is_some() { "; token lines go backwards" } else { "" }),
+            json!({"kind": "plaintext-switch", "input": input, "cut": cut}),
+        );
+    }
+}
+
 /// TokenSink wrapper that checks, for every token handed to the tree builder, that the sink's
 /// current line (last set_current_line, initially 1) equals the token's line afterwards.
 struct LineTee {
@@ -190,6 +230,8 @@ pub fn run(args: &Args) -> (Meta, Stats) {
         if v["kind"] == "fwd" {
             let cuts: Vec<usize> = v["cuts"].as_array().map(|a| a.iter().filter_map(|x| x.as_u64()).map(|x| x as usize).collect()).unwrap_or_default();
             check_forwarding(v["input"].as_str().unwrap_or(""), &cuts, &mut st);
+        } else if v["kind"] == "plaintext-switch" {
+            check_plaintext_switch(v["input"].as_str().unwrap_or(""), v["cut"].as_u64().unwrap_or(0) as usize, &mut st);
         } else {
             check_tok(&Case::from_json(&v["case"]), &mut rng, &mut st, true);
         }
@@ -234,6 +276,12 @@ pub fn run(args: &Args) -> (Meta, Stats) {
             let n = input.chars().count();
             let cuts = gen::random_cuts(&mut rng, n);
             check_forwarding(&input, &cuts, st);
+            if rng.chance(1, 4) {
+                // cut next to a line break half of the time (between CR and LF, after CR, before LF)
+                let positions: Vec<usize> = input.chars().enumerate().filter(|(_, c)| *c == '\r' || *c == '\n').map(|(i, _)| i).collect();
+                let cut = if !positions.is_empty() && rng.chance(1, 2) { *rng.pick(&positions) + rng.below(2) } else { rng.below(n + 1) };
+                check_plaintext_switch(&input, cut, st);
+            }
             if st.samples.len() < 2 && rng.chance(1, 300) {
                 let (m, _) = model_tokens(&c);
                 st.sample(json!({"case": c.to_json(), "model_tokens_with_lines": toks_json(&m)}));
@@ -242,9 +290,9 @@ pub fn run(args: &Args) -> (Meta, Stats) {
     });
     let mut m = super::meta(
         args,
-        "expected line of every non-character token and of the end of every character run = 1 + line breaks (LF, CR, CRLF once) the reference tokenizer has consumed at that emission; EOF = 1 + breaks of the whole input (counted independently). Inputs: every tokenizer-state prefix x 10 continuations with LF / CR / CRLF substituted at every position, under all 2-chunk splits and 1-char chunks (all in thorough, a seed-dependent quarter in quick), plus markup soup with sprinkled line breaks; the tree builder's forwarding is checked token by token (sink's current line after set_current_line == token line) on full parses. Non-trivial = the input contains a line break; distinct by case hash.",
+        "expected line of every non-character token and of the end of every character run = 1 + line breaks (LF, CR, CRLF once) the reference tokenizer has consumed at that emission; EOF = 1 + breaks of the whole input (counted independently). Inputs: every tokenizer-state prefix x 10 continuations with LF / CR / CRLF substituted at every position, under all 2-chunk splits and 1-char chunks (all in thorough, a seed-dependent quarter in quick), plus markup soup with sprinkled line breaks; the tree builder's forwarding is checked token by token (sink's current line after set_current_line == token line) on full parses; runs in which the embedder calls set_plaintext_state() between two feeds (cut placed next to line breaks half of the time) must still end with EOF on line 1 + breaks. Non-trivial = the input contains a line break; distinct by case hash.",
         &["token streams that differ from the reference model are skipped here (C01 reports them)", "line of individual character tokens inside a run is not compared (they may be split differently)"],
     );
-    m.require = vec![("enumerated_cases".into(), cases.len() as u64), ("forwarding_runs".into(), 1000), ("token_lines_compared".into(), 100000)];
+    m.require = vec![("enumerated_cases".into(), cases.len() as u64), ("forwarding_runs".into(), 1000), ("token_lines_compared".into(), 100000), ("plaintext_switch_runs".into(), 1000)];
     (m, st)
 }
